@@ -240,6 +240,9 @@ theorem applyLimit_map {α β : Type} (f : α → β) (limit : Option Int) (l : 
     applyLimit limit (l.map f) = (applyLimit limit l).map f := by
   cases limit <;> simp [applyLimit, List.map_drop]
 
+theorem parentOnlyFrames_eq (ps : List Frame) : parentOnlyFrames ps = (visible ps).take 1 := by
+  simp [parentOnlyFrames, Gen.parentWalkSkipsHidden]
+
 theorem extractFrames_erase (o : Opts) (a b : Bool) (tb ps : List Frame) :
     extractFrames o a b (tb.map eraseFrame) (ps.map eraseFrame) = (extractFrames o a b tb ps).map eraseShown := by
   cases tb with
@@ -254,7 +257,7 @@ theorem extractFrames_erase (o : Opts) (a b : Bool) (tb ps : List Frame) :
       simp only [List.map_append, unmarked_erase]
       congr 1
       split
-      · rw [← List.map_take, ← List.map_append, unmarked_erase]
+      · rw [parentOnlyFrames_eq, parentOnlyFrames_eq, visible_erase, ← List.map_take, ← List.map_append, unmarked_erase]
       · split
         · rw [← List.map_reverse, ← List.map_append, markLast_erase]
         · rfl
